@@ -35,8 +35,8 @@ Fixpoint split_top (sep : string) (depth : nat) (l : list tk) (cur : list tk) : 
   match l with
   | [] => [rev cur]
   | c :: r =>
-      if opens c then split_top sep (S depth) r (c :: cur)
-      else if closes c then split_top sep (pred depth) r (c :: cur)
+      if opens c || is_p "<" c then split_top sep (S depth) r (c :: cur)          (* < > of type arguments count as brackets here *)
+      else if closes c || is_p ">" c then split_top sep (pred depth) r (c :: cur)
       else if is_p sep c && Nat.eqb depth 0 then rev cur :: split_top sep depth r []
       else split_top sep depth r (c :: cur)
   end.
